@@ -58,6 +58,15 @@ def gen_systematic(rng, two=False):
     return parprops.one_preemption_cases(base, parrun.run_par_case)
 
 
+def copyable(desc):
+    """may the consumer iterate a copy() instead?  Not with a user-written source /
+    stage (no copy()), and not with a tiling above a per-epoch reshuffle (recorded
+    finding of C13: the copy of such a pipeline iterates in another order)"""
+    ops = [s['op'] for s in desc['stages']]
+    return desc['source'].get('kind') != 'user' and 'user' not in ops \
+        and 'userstage' not in ops and 'tile' not in ops and 'cycle' not in ops
+
+
 def gen(rng, tier, index):
     if tier == 'thorough' and index % 2000 == 1999:
         return gen_systematic(rng, two=True)
@@ -91,6 +100,7 @@ def gen(rng, tier, index):
     items = bool(pre is not None and pre.items and pi_ == len(desc['stages']) - 1
                  and (last['op'] == 'parmap' or not pargen.is_pool(last))
                  and not last.get('catch') and rng.random() < 0.5)
+    via_copy = copyable(desc) and rng.random() < 0.12
     cases = []
     ks = list(range(0, nout + 2)) + [None]
     for k in ks:
@@ -106,6 +116,8 @@ def gen(rng, tier, index):
             c['strict_cancel'] = True
         if items:
             c['items'] = True
+        if via_copy:
+            c['via_copy'] = True
         cases.append(c)
     return cases
 
